@@ -138,7 +138,7 @@ impl<'a> QState<'a> {
                         self.stats.inc(match self.mac {
                             QMacro::Iter => "write_ecs_iter",
                             QMacro::IterBorrow => "write_ecs_iter_borrow",
-                            QMacro::IterDestroy => "write_ecs_iter_destroy",
+                            QMacro::IterDestroy | QMacro::IterDestroyUnit | QMacro::IterDestroyStep => "write_ecs_iter_destroy",
                             QMacro::Find => "write_find",
                             QMacro::FindBorrow => "write_find_borrow",
                         });
@@ -481,6 +481,30 @@ impl<W: WorldSpec> Engine<W> {
             (None, None, None)
         };
         let start_live: BTreeSet<Bits> = self.ms[wid].ents.iter().filter(|(_, r)| info.matches.contains(&r.arch)).map(|(b, _)| *b).collect();
+        // ecs_iter_destroy! accepts closures returning EcsStepDestroy, EcsStep or (): use the
+        // narrower forms when the plan never asks for more
+        let mac = match mac {
+            QMacro::IterDestroyUnit | QMacro::IterDestroyStep => QMacro::IterDestroy,
+            m => m,
+        };
+        let call_form = if mac == QMacro::IterDestroy {
+            let any_destroy = plan.iter().any(|a| matches!(a.step, Step::ContinueDestroy | Step::BreakDestroy));
+            let any_break = plan.iter().any(|a| matches!(a.step, Step::Break | Step::BreakDestroy));
+            if !any_destroy && !any_break && plan.len() % 2 == 1 {
+                QMacro::IterDestroyUnit
+            } else if !any_destroy && plan.len() % 3 != 0 {
+                QMacro::IterDestroyStep
+            } else {
+                QMacro::IterDestroy
+            }
+        } else {
+            mac
+        };
+        if call_form == QMacro::IterDestroyUnit {
+            self.stats.inc("iter_destroy_unit_closure");
+        } else if call_form == QMacro::IterDestroyStep {
+            self.stats.inc("iter_destroy_ecsstep_closure");
+        }
         let wrapping = self.cfg.wrapping;
         // F3 inside ecs_iter_destroy!: the loop drops the tuple returned by destroy itself. Only
         // armed when no drop can happen in harness code running inside the closure.
@@ -510,7 +534,8 @@ impl<W: WorldSpec> Engine<W> {
             let res = {
                 let mut hook = |v: Visit<'_, '_, W>| qs.on_visit::<W>(v);
                 catch(|| match mac {
-                    QMacro::Iter | QMacro::IterDestroy | QMacro::Find => w.query_mut(si, mac, qkey, &mut hook),
+                    QMacro::Iter | QMacro::Find => w.query_mut(si, mac, qkey, &mut hook),
+                    QMacro::IterDestroy | QMacro::IterDestroyUnit | QMacro::IterDestroyStep => w.query_mut(si, call_form, qkey, &mut hook),
                     QMacro::IterBorrow | QMacro::FindBorrow => w.query_borrow(si, mac, qkey, &mut hook),
                 })
             };
@@ -595,7 +620,7 @@ impl<W: WorldSpec> Engine<W> {
                     self.stats.inc(match mac {
                         QMacro::Iter => "F1_closure_panic_iter",
                         QMacro::IterBorrow => "F1_closure_panic_iter_borrow",
-                        QMacro::IterDestroy => "F1_closure_panic_iter_destroy",
+                        QMacro::IterDestroy | QMacro::IterDestroyUnit | QMacro::IterDestroyStep => "F1_closure_panic_iter_destroy",
                         QMacro::Find => "F1_closure_panic_find",
                         QMacro::FindBorrow => "F1_closure_panic_find_borrow",
                     });
